@@ -217,8 +217,25 @@ def run(ctx):
             if (t[0] in ("band", "bor", "bxor") + oracle.SHIFTS or (t[0] == "imm" and t[1] in oracle.SHIFTS)) and all(x.startswith("n:") for x in t[1:] if ":" in x[:2]):
                 impl[i] = "err:rhs32"
     model = None
+    link = None
+    if hx_plain and hx_asan:
+        # primitive order between an s64 and a u64 = order of the two type descriptors in this binary (not in the source): read it
+        # from each harness build and hand it to the model (`Cfg.s64BelowU64`)
+        la, _ = run_impl(hx_asan, ["link?"])
+        lp, _ = run_impl(hx_plain, ["link?"])
+        link = {"asan": la[0], "plain": lp[0]}
     if exe:
-        model = ctx.model(lines, exe=exe)
+        if link and link["asan"] != link["plain"]:
+            # (has not been observed) the two builds order the descriptors differently: run the model once per build
+            ia = [i for i, l in enumerate(lines) if not is_shift(l)]
+            ip = [i for i, l in enumerate(lines) if is_shift(l)]
+            model = [None] * len(lines)
+            for idx, lk in ((ia, link["asan"]), (ip, link["plain"])):
+                out = ctx.model(["link " + lk[-1]] + [lines[i] for i in idx], exe=exe)
+                for i, o in zip(idx, out[1:]):
+                    model[i] = o
+        else:
+            model = ctx.model(["link " + (link["asan"][-1] if link else "0")] + lines, exe=exe)[1:]
     exp = [oracle.expected(l) for l in lines]
     # classify
     diffs, direct, ub_lines = [], [], []
@@ -237,7 +254,7 @@ def run(ctx):
         a_num = "n:0000000000000000" if (a == "n:8000000000000000" and l.startswith("compare ")) else a
         if e is not None and a_num != e:
             direct.append(i)
-        if m is not None and m != "ub" and a != m and not (m == "unspec"):
+        if m is not None and m != "ub" and a != m:
             diffs.append(i)
     # (E) report: property failures on the implementation first
     reported = set()
@@ -296,7 +313,9 @@ def run(ctx):
         "shift counts outside the operand width and signed left shifts that overflow are undefined in ISO C; modelled as the hardware does (count mod width, "
         "two's-complement result) and tested on the non-sanitized build; the property makes no claim there",
         "`bnot` of a number outside int32 converts an out-of-range double to int32 unchecked (ISO C undefined): no claim, not compared",
-        "primitive ordering (< <= > >=, cmp) between an s64 and a u64 depends on the link order of the two type descriptors: not generated",
+        "primitive ordering (< <= > >=, cmp) between an s64 and a u64 is the order of the two type descriptors' addresses (janet_compare_abstract), whatever the values: "
+        "the harness reports that order (`link?`) and the model takes it as `Cfg.s64BelowU64`; compared model vs implementation, no oracle claim "
+        "(value ordering across the two types is `compare` / `compare<` ..., which is proved and judged by the oracle)",
         "the model is tied to the C by regenerated tables/flags (Gen/Int64.lean) and by the correspondence run; the C compiler and libc are trusted",
     ])
 
